@@ -473,9 +473,29 @@ impl IncrementalEngine {
             {
                 // Validate that matched fact still exists (hasn't been retracted)
                 if let Some(matched_handle) = activation.matched_fact_handle {
-                    if self.working_memory.get(&matched_handle).is_none() {
-                        // Fact was retracted, skip this activation
-                        continue;
+                    match self.working_memory.get(&matched_handle) {
+                        None => {
+                            // Fact was retracted, skip this activation
+                            continue;
+                        }
+                        Some(fact) => {
+                            // The fact may have been updated since the activation was
+                            // created: fire only if the rule still matches its current
+                            // contents (evaluated exactly as at propagation time)
+                            let mut single_fact_data = TypedFacts::new();
+                            for (key, value) in fact.data.get_all() {
+                                single_fact_data
+                                    .set(format!("{}.{}", fact.fact_type, key), value.clone());
+                            }
+                            single_fact_data.set_fact_handle(fact.fact_type.clone(), fact.handle);
+                            if !super::network::evaluate_rete_ul_node_typed(
+                                &rule.node,
+                                &single_fact_data,
+                                &self.custom_functions,
+                            ) {
+                                continue;
+                            }
+                        }
                     }
                 }
 
